@@ -615,6 +615,41 @@ func c07Errors(c *Ctx, g *load.G) {
 			r.Fatal("anchor builder.%s not found", n)
 		}
 	}
+	// … and every other plain function of the package that returns an error and hands on the verdict of one of them
+	// (a helper split off the pipeline): its callers have the same obligation
+	for changed := true; changed; {
+		changed = false
+		for _, fd := range load.AllFuncDecls(bp) {
+			if fd.Body == nil || fd.Recv != nil || fd.Type.Results == nil || strings.HasSuffix(g.Fset.Position(fd.Pos()).Filename, "_test.go") {
+				continue
+			}
+			if _, known := isCallee[fd.Name.Name]; known {
+				continue
+			}
+			k, ek := 0, -1
+			for _, f := range fd.Type.Results.List {
+				m := len(f.Names)
+				if m == 0 {
+					m = 1
+				}
+				if nospace(f.Type) == "error" {
+					ek = k + m - 1
+				}
+				k += m
+			}
+			if ek < 0 {
+				continue
+			}
+			for _, ce := range callsIn(fd.Body) {
+				if _, ok := isCallee[callName(ce)]; ok {
+					isCallee[fd.Name.Name] = ek
+					callees = append(callees, fd.Name.Name)
+					changed = true
+					break
+				}
+			}
+		}
+	}
 	nc := c.builderNorm().without(callees...)
 	n := 0
 	for _, fd := range load.AllFuncDecls(bp) {
@@ -658,6 +693,15 @@ func c07Errors(c *Ctx, g *load.G) {
 				}
 				if k < len(p) && p[k].Kind == "+" && (p[k].Text == E+"!=nil" || p[k].Text == E+"==nil") {
 					decided = p[k].Text
+				}
+				// a function whose only result is the error: the call itself is the value tested
+				if decided == "" && ek == 0 && k < len(p) && p[k].Kind == "+" && (p[k].Text == e.Text+"!=nil" || p[k].Text == e.Text+"==nil") {
+					decided = p[k].Text
+				}
+				if decided == "" && k < len(p) && p[k].Kind == "return" && p[k].Text == e.Text {
+					// `return f(…)`: the results, error included, are handed on as they are; the caller's test is the
+					// obligation of the caller (this function returns an error itself)
+					continue
 				}
 				if decided == "" {
 					what := "the path ends"
